@@ -17,6 +17,7 @@
 #include "inv_entities.h"
 #include <csignal>
 #include <cstring>
+#include <execinfo.h>
 #include <fcntl.h>
 #include <functional>
 #include <new>
@@ -226,11 +227,65 @@ static void write_all(int fd, const std::string& s) { size_t o = 0; while (o < s
 
 [[noreturn]] static void on_terminate() {
 	g_armed = false;
-	write_all(g_result_fd, "TERMINATE");
-	// the parent looks for the destructor on the stack (stderr of the child is a temp file)
-	write_all(2, "INV-TERMINATE-STACK\n");
-	__sanitizer_print_stack_trace();
+	// result = TERMINATE + the raw return addresses of the stack; the parent (same address space layout, it forked us)
+	// symbolises them once and caches, which is much cheaper than symbolising in every child
+	void* pcs[64];
+	int n = backtrace(pcs, 64);
+	std::string r = "TERMINATE";
+	char b[32];
+	for (int i = 0; i < n; ++i) { std::snprintf(b, sizeof b, " %p", pcs[i]); r += b; }
+	write_all(g_result_fd, r);
 	_exit(0);
+}
+
+static const std::string& symbolize(const std::string& pc) {
+	static std::map<std::string, std::string> cache;
+	auto it = cache.find(pc);
+	if (it != cache.end()) return it->second;
+	char buf[2048];
+	buf[0] = 0;
+	void* addr = reinterpret_cast<void*>(std::strtoull(pc.c_str(), nullptr, 16) - 1);   // return address -> call site
+	__sanitizer_symbolize_pc(addr, "%f", buf, sizeof buf);
+	return cache.emplace(pc, buf).first->second;
+}
+
+// which destructor let the exception out: walking up from the throw, the first frame that is a destructor (X::~X)
+// or the reset of the std::optional that owns a scope object; else the innermost library function
+static std::string attribute_terminate(const std::string& res) {
+	auto pcs = vh::split(res);
+	std::string who = "?", first_lib;
+	bool below_throw = true;
+	bool has_throw = false;
+	std::vector<std::string> frames;
+	for (size_t i = 1; i < pcs.size(); ++i) frames.push_back(symbolize(pcs[i]));
+	for (auto& f : frames) if (f.find("__cxa_throw") != std::string::npos || f.find("__cxa_rethrow") != std::string::npos) has_throw = true;
+	for (auto& fr : frames) {
+		if (has_throw && below_throw) {
+			if (fr.find("__cxa_throw") != std::string::npos || fr.find("__cxa_rethrow") != std::string::npos) below_throw = false;
+			continue;
+		}
+		if (fr == "main") break;
+		size_t q = fr.find("::~");
+		if (q != std::string::npos) {
+			size_t e = q + 3;
+			while (e < fr.size() && (std::isalnum(static_cast<unsigned char>(fr[e])) || fr[e] == '_')) ++e;
+			const std::string name = fr.substr(q + 2, e - q - 2);
+			if (name.rfind("~_Optional", 0) == 0 || name == "~optional") continue;    // libstdc++ wrappers around the scope object
+			who = name;
+			break;
+		}
+		if (fr.find("_Optional_payload") != std::string::npos && (fr.find("_M_reset") != std::string::npos || fr.find("_M_destroy") != std::string::npos)) {
+			static const std::regex re("BitSerializer::(?:\\w+::)*(\\w+)");
+			std::smatch m;
+			if (std::regex_search(fr, m, re)) { who = "~" + m[1].str(); break; }
+		}
+		if (first_lib.empty()) {
+			size_t b = fr.find("BitSerializer::");
+			if (b != std::string::npos) { size_t e = fr.find_first_of("(<", b); first_lib = "in " + fr.substr(b, std::min<size_t>(e == std::string::npos ? 80 : e - b, 80)); }
+		}
+	}
+	if (who == "?" && !first_lib.empty()) who = first_lib;
+	return "TERMINATE(" + who + ")";
 }
 
 // runs `op` in a forked child; returns the answer line
@@ -261,43 +316,7 @@ static std::string in_child(const std::function<std::string()>& op) {
 	int st = 0; waitpid(pid, &st, 0);
 	std::string err;
 	if (efd >= 0) { lseek(efd, 0, SEEK_SET); while ((n = ::read(efd, buf, sizeof buf)) > 0 && err.size() < 65536) err.append(buf, static_cast<size_t>(n)); close(efd); }
-	if (res == "TERMINATE") {
-		// name the destructor that let the exception out: walking up from the throw, the first frame that is a
-		// destructor (::~X) or the reset of the std::optional that owns a scope object (the destructor is inlined there)
-		std::string who = "?";
-		size_t p = err.find("INV-TERMINATE-STACK");
-		if (p != std::string::npos) {
-			size_t t = err.find("__cxa_throw", p);
-			if (t == std::string::npos) t = err.find("__cxa_rethrow", p);
-			size_t pos = t == std::string::npos ? p : t;
-			std::string first_lib;
-			while (pos < err.size()) {
-				size_t eol = err.find('\n', pos);
-				if (eol == std::string::npos) eol = err.size();
-				const std::string fr = err.substr(pos, eol - pos);
-				pos = eol + 1;
-				if (fr.find(" in main ") != std::string::npos) break;
-				size_t q = fr.find("::~");
-				if (q != std::string::npos) {
-					size_t e = q + 3;
-					while (e < fr.size() && (std::isalnum(static_cast<unsigned char>(fr[e])) || fr[e] == '_')) ++e;
-					who = fr.substr(q + 2, e - q - 2);
-					break;
-				}
-				if (fr.find("_Optional_payload") != std::string::npos && (fr.find("_M_reset") != std::string::npos || fr.find("_M_destroy") != std::string::npos)) {
-					static const std::regex re("BitSerializer::(?:\\w+::)*(\\w+)");
-					std::smatch m;
-					if (std::regex_search(fr, m, re)) { who = "~" + m[1].str(); break; }
-				}
-				if (first_lib.empty()) {
-					size_t b = fr.find("BitSerializer::");
-					if (b != std::string::npos) { size_t e = fr.find_first_of("(<", b); first_lib = "in " + fr.substr(b, std::min<size_t>(e == std::string::npos ? 80 : e - b, 80)); }
-				}
-			}
-			if (who == "?" && !first_lib.empty()) who = first_lib;
-		}
-		return "TERMINATE(" + who + ")";
-	}
+	if (res.rfind("TERMINATE", 0) == 0) return attribute_terminate(res);
 	auto san = [&]() -> std::string {
 		size_t p;
 		if ((p = err.find("AddressSanitizer: ")) != std::string::npos) { size_t e = err.find_first_of(" \n", p + 18); return "asan:" + err.substr(p + 18, e - p - 18); }
